@@ -83,11 +83,18 @@ func HarnessC20Registry() {
 		}
 		// call on a literal receiver, or on a variable holding the same value
 		src := "{{ " + c20Recv[t] + "." + name + "(" + c20Args + ") }}"
-		if vChoice("via-variable", 2) == 1 {
+		var data map[string]any
+		switch vChoice("via", 4) {
+		case 1: // a template variable
 			src = "{{ v = " + c20Recv[t] + " }}{{ v." + name + "(" + c20Args + ") }}"
+		case 2: // a value that comes from the Go data
+			data = map[string]any{"v": []any{"r", []any{1, "x"}, 5, 2.5, true}[t]}
+			src = "{{ v." + name + "(" + c20Args + ") }}"
+		case 3: // a value that a built-in function or an operator produced
+			src = "{{ " + []string{"\"R\".lower()", "[1].append(\"x\")", "(2 + 3)", "(2.0 + 0.5)", "[1, 2].contains(2)"}[t] + "." + name + "(" + c20Args + ") }}"
 		}
 		last = nil
-		out, err := EvaluateString(src, nil)
+		out, err := EvaluateString(src, data)
 		tag, registered := registry[t][name]
 		switch {
 		case name == "len" && c20HasLen[t]:
